@@ -473,3 +473,102 @@ func quiesce(d time.Duration) {
 		}
 	}
 }
+
+// runDeadlines: the export timeout is PER CHUNK (chunkExporter wraps timeoutExporter).
+// The exporter notes the deadline of every Export call's context and takes >= 1 ms per
+// call, so with a fresh timeout per call all deadlines differ; a deadline shared by the
+// chunks of one payload (decorators swapped) shows as two consecutive calls with the SAME
+// deadline, a missing timeoutExporter as a call without deadline.  No real-time bound is
+// judged: slow scheduling only moves fresh deadlines further apart.  A large ForceFlush
+// payload is produced by filling the queue while the exporter is blocked and the export
+// buffer is full; if the poll goroutine wins every race for it the run is inconclusive.
+func runDeadlines(w *vgen.Writer, r *vgen.Rand, rounds int) {
+	for round := 0; round < rounds && stuckScenarios.Load() < 2; round++ {
+		c := cfg{qcap: 24, maxb: r.Range(2, 3), bufsz: 1}
+		n := r.Range(10, 20)
+		rg := newRigSpec(optSpec{q: ip(c.qcap), b: ip(c.maxb), s: ip(c.bufsz), interval: dp(time.Hour), timeout: dp(time.Minute)})
+		rg.viaProvider, rg.direct = r.Bool(), r.Intn(3)
+		release := make(chan struct{})
+		var mu sync.Mutex
+		var dls []time.Time
+		noDeadline := 0
+		calls := 0
+		rg.g.behave = func(ctx context.Context, _ int) error {
+			mu.Lock()
+			calls++
+			first := calls == 1
+			if dl, ok := ctx.Deadline(); ok {
+				dls = append(dls, dl)
+			} else {
+				noDeadline++
+				dls = append(dls, time.Time{})
+			}
+			mu.Unlock()
+			if first {
+				<-release
+			}
+			time.Sleep(time.Millisecond)
+			return nil
+		}
+		stuck := ""
+		seq := 0
+		emit := func(k int) {
+			for i := 0; i < k; i++ {
+				rg.emitShape(0, 0, seq, shapes[r.Intn(len(shapes))])
+				seq++
+			}
+		}
+		emit(c.maxb) // poll hands the first batch over; Export blocks
+		if !rg.g.waitFor(func() bool { return rg.g.begins >= 1 }, watchdog) {
+			stuck = "first batch never reached the exporter"
+		}
+		if stuck == "" { // fill the one-slot export buffer with a flush marker
+			ctx := newSctx()
+			done := make(chan struct{})
+			go func() { rg.flush(0, ctx); close(done); ctx.wake() }()
+			waitDone(ctx, 2, done)
+			ctx.cancel()
+			<-done
+			emit(n) // nobody can take these: buffer full, exporter blocked
+			ctx2 := newSctx()
+			ctx2.live = true
+			done2 := make(chan struct{})
+			go func() { rg.flush(0, ctx2); close(done2) }()
+			close(release)
+			select {
+			case <-done2:
+			case <-time.After(watchdog):
+				stuck = "ForceFlush(live context) did not return after the exporter was released"
+				ctx2.cancel()
+			}
+		}
+		if stuck == "" && !callWD(func() { rg.shutdown(0, context.Background()) }) {
+			stuck = "Shutdown(background) did not return"
+		}
+		evs := rg.rec.take()
+		if stuck != "" {
+			stuckScenarios.Add(1)
+			close(release)
+			w.Violation("Stuck: per-chunk timeout scenario: "+stuck, map[string]any{"cfg": coqCfg(c)})
+			continue
+		}
+		mu.Lock()
+		shared := -1
+		for i := 1; i < len(dls); i++ {
+			if !dls[i].IsZero() && dls[i].Equal(dls[i-1]) {
+				shared = i
+			}
+		}
+		nd, nc := noDeadline, calls
+		mu.Unlock()
+		desc := map[string]any{"cfg": coqCfg(c), "records": c.maxb + n, "export_calls": nc}
+		if nd > 0 {
+			w.Violation(fmt.Sprintf("export timeout: %d of %d Export calls got a context without deadline although WithExportTimeout(1m) is set", nd, nc), desc)
+		}
+		if shared >= 0 {
+			w.Violation(fmt.Sprintf("export timeout is not per chunk: Export calls %d and %d of %d (batch size %d, %d records flushed at once) share one deadline", shared, shared+1, nc, c.maxb, n), desc)
+		}
+		w.Add("CFree "+coqCfg(c)+" "+coqHistory(evs)+" 0", desc, "deadlines", true)
+		w.Tally("misc.per-chunk deadline")
+	}
+}
